@@ -1007,19 +1007,23 @@ def _expand_when_stmt_element(
             new_elements.append(CatchPatternFailure(label=None))
             new_elements.append(Goto(label=else_label_name))
 
-        # Else group
-        new_elements.append(Label(name=else_label_name))
-        new_elements.append(WaitForHeads(number=len(group_label_names)))
-        if element.else_elements is None:
-            new_elements.append(Abort())
-        else:
-            new_elements.append(Goto(label=else_statement_label_name))
+    # Else group (emitted once, after all cases: every case jumps to it by label)
+    new_elements.append(Label(name=else_label_name))
+    new_elements.append(WaitForHeads(number=len(group_label_names)))
+    # All cases have failed: close the scope opened at the beginning of the
+    # statement, as done for a successful case (otherwise the scope stays open
+    # for the rest of the flow and a second execution of the statement fails).
+    new_elements.append(EndScope(name=scope_label_name))
+    if element.else_elements is None:
+        new_elements.append(Abort())
+    else:
+        new_elements.append(Goto(label=else_statement_label_name))
 
-            new_elements.append(Label(name=else_statement_label_name))
-            new_elements.extend(expand_elements(element.else_elements, flow_configs))
+        new_elements.append(Label(name=else_statement_label_name))
+        new_elements.extend(expand_elements(element.else_elements, flow_configs))
 
-        # End label
-        new_elements.append(Label(name=end_label_name))
+    # End label
+    new_elements.append(Label(name=end_label_name))
 
     return new_elements
 
